@@ -43,6 +43,8 @@ CHECKS = {
         runs=[
             dict(name="requests", run="^TestPropRequests$", checks=(12000, 80000), shards=(4, 16)),
             dict(name="service", run="^TestPropServiceLevel$", checks=(6000, 40000), shards=(2, 8)),
+            dict(name="concurrent", run="^TestPropConcurrentRequests$", checks=(1200, 8000), shards=(4, 16)),
+            dict(name="query", run="^TestPropQueryRequests$", checks=(2000, 16000), shards=(4, 16)),
         ],
     ),
     "C08": dict(
